@@ -47,7 +47,8 @@ ASSUMPTIONS = [
     "sys.stderr, when it fails, fails with OSError (a stderr failing otherwise reaches the caller: modelled, "
     "compared with the model only)",
     "BaseException (KeyboardInterrupt, GeneratorExit) is deliberately not caught by the code",
-    "enqueue=True with a coroutine sink is not exercised (loop.create_task from the worker thread)",
+    "enqueue=True with a coroutine sink: the worker's loop.create_task runs while the loop thread waits in "
+    "complete_queue() (the harness awaits complete() after every message), so no cross-thread race is exercised",
 ]
 
 STAGES = ["filter", "dynFormat", "excFormat", "formatMap", "serialize", "put", "write", "flush", "stop",
@@ -183,7 +184,7 @@ def line_of(scn):
     L = lst(["%s,%d" % (k, v) for k, v in sorted(scn["levels"].items(), key=lambda kv: int(kv[0]))])
     O = lst(["+".join(("l%d" % op[1]) if op[0] == "l" else "c" if op[0] == "c" else "r%d.%d" % (op[1], op[2])
                       for op in g) for g in scn["groups"]])
-    return "run H=%s F=%s A=%s R=%s X=%s S=%s N=%s L=%s E=%s D=1 O=%s" % (H, F, A, R, X, Sf, N, L, scn["stderr"], O)
+    return "run H=%s F=%s A=%s R=%s X=%s S=%s N=%s L=%s E=%s D=3 O=%s" % (H, F, A, R, X, Sf, N, L, scn["stderr"], O)
 
 
 def show_obs(results, events, reg, minlevel, sinks):
@@ -267,46 +268,47 @@ def spec_run(scn):
                 report(events, h, i, err, "w")                                 # worker survives
         pending[h] = []
 
+    def spec_log(events, i, busy):
+        """one `_log` over the registered handlers; `busy` = handlers whose sink is running right now.
+        Returns the error kind that reaches the caller of this logging call, or None."""
+        if not reg or level_of(t, i) < min(t["handlers"][h]["level"] for h in reg):
+            return None
+        for h in reg:
+            c = t["handlers"][h]
+            out = spec_outcome(t, h, i, False)
+            err = None
+            if out[0] == "failed":
+                err = out[1]
+            elif out[0] == "handoff":
+                if h in busy:
+                    err = "RuntimeError"      # the logger used from inside this handler's own sink: detected
+                elif c["enqueue"]:
+                    if (i, h, "put") in t["faults"]:
+                        err = t["faults"][(i, h, "put")]
+                    else:
+                        pending[h].append(i)
+                else:
+                    busy.add(h)
+                    for j in t["reenter"].get((i, h), []):
+                        err = spec_log(events, j, busy)     # the sink calls logger.info(...): a whole _log
+                        if err is not None:
+                            break                          # escapes from the sink
+                    busy.discard(h)
+                    if err is None:
+                        err = spec_sink_write(t, scn, h, i, sinks, tasks)
+            if err is not None:
+                if c["catch"]:
+                    report(events, h, i, err, "m")   # never propagated; the others still receive
+                else:
+                    return err                        # reaches the caller; earlier handlers are done
+        return None
+
     for g in scn["groups"]:
         results, events = [], []
         for op in g:
             if op[0] == "l":
-                i = op[1]
-                res = "ok"
-                if reg and level_of(t, i) >= min(t["handlers"][h]["level"] for h in reg):
-                    for h in reg:
-                        c = t["handlers"][h]
-                        out = spec_outcome(t, h, i, False)
-                        err = None
-                        if out[0] == "failed":
-                            err = out[1]
-                        elif out[0] == "handoff":
-                            if c["enqueue"]:
-                                if (i, h, "put") in t["faults"]:
-                                    err = t["faults"][(i, h, "put")]
-                                else:
-                                    pending[h].append(i)
-                            else:
-                                for j in t["reenter"].get((i, h), []):
-                                    # the logger used from inside its own sink: detected, reported as an error
-                                    inner = spec_outcome(t, h, j, False)
-                                    ierr = inner[1] if inner[0] == "failed" else \
-                                        "RuntimeError" if inner[0] == "handoff" else None
-                                    if ierr is not None:
-                                        if c["catch"]:
-                                            report(events, h, j, ierr, "m")
-                                        else:
-                                            err = ierr           # escapes from the sink
-                                            break
-                                if err is None:
-                                    err = spec_sink_write(t, scn, h, i, sinks, tasks)
-                        if err is not None:
-                            if c["catch"]:
-                                report(events, h, i, err, "m")   # never propagated; others still receive
-                            else:
-                                res = err                         # reaches the caller; earlier handlers done
-                                break
-                results.append(res)
+                err = spec_log(events, op[1], set())
+                results.append("ok" if err is None else err)
             elif op[0] == "c":
                 for h in reg:
                     c = t["handlers"][h]
@@ -418,8 +420,6 @@ class Impl:
         self.cur_k = -1
         self.loop_errors = []
         self.last_i = {}
-        for h in scn["handlers"]:
-            self.add(h)
 
     # -- user callables ------------------------------------------------------------------------
     def fault(self, i, h, stage):
@@ -584,6 +584,8 @@ class Impl:
         scn = self.scn
         if not scn["noloop"]:
             asyncio.get_running_loop().set_exception_handler(self.loop_handler)
+        for h in scn["handlers"]:
+            self.add(h)              # inside the loop: an enqueue coroutine sink captures the running loop
         for g in scn["groups"]:
             results = []
             for op in g:
@@ -733,8 +735,6 @@ def product_points():
             for catch in (1, 0):
                 for enq in (0, 1):
                     for kind in KINDS:
-                        if enq and kind == "coroutine":
-                            continue
                         for n in (1, 2, 3):
                             for w in range(2 ** n):
                                 if stage == "stop" and (n != 2 or w != 1):
@@ -792,7 +792,7 @@ def random_scn(rng):
     hs = []
     for hid in range(nh):
         kind = rng.choice(KINDS)
-        enq = int(rng.chance(30)) if kind != "coroutine" else 0
+        enq = int(rng.chance(30))
         if not tame:
             enq = 0
             if kind == "coroutine":
@@ -804,7 +804,7 @@ def random_scn(rng):
     groups = [[["l", i], ["c"]] for i in range(nm)]
     scn = empty_scn(hs, groups)
     scn["stderr"] = stderr
-    scn["noloop"] = int(rng.chance(6))
+    scn["noloop"] = int(rng.chance(6)) if not any(c["enqueue"] and c["kind"] == "coroutine" for c in hs) else 0
     for i in range(nm):
         if rng.chance(25):
             scn["levels"][str(i)] = rng.choice([10, 30])
@@ -836,24 +836,36 @@ def random_scn(rng):
                             scn["faults"].append([i, c2["id"], st, k])
                 else:
                     scn["faults"].append([i, c["id"], st, k])
-    # re-entrant sink
+    # re-entrant sink: its write calls logger.info(...) – a whole _log over all handlers
     cand = [c for c in hs if not c["enqueue"] and c["kind"] != "coroutine"]
-    if cand and rng.chance(18):
+    if cand and rng.chance(22):
         c = rng.choice(cand)
         i = rng.below(nm)
-        for j in ([100 + i, 200 + i] if rng.chance(40) else [100 + i]):
+        isolate = rng.chance(35)           # the other handlers filter the inner messages out
+        inner = [100 + i, 200 + i] if rng.chance(40) else [100 + i]
+        for j in inner:
             scn["reenter"].append([i, c["id"], j])
+        # second level: another handler's sink logs again while it processes the first inner message
+        cand2 = [c2 for c2 in cand if c2["id"] != c["id"]]
+        if cand2 and not isolate and rng.chance(30):
+            c2 = rng.choice(cand2)
+            scn["reenter"].append([100 + i, c2["id"], 300 + i])
+            inner.append(300 + i)
+        for j in inner:
             if str(i) in scn["levels"]:
                 scn["levels"][str(j)] = scn["levels"][str(i)]
             for c2 in hs:
-                if c2["id"] != c["id"]:
+                if c2["id"] != c["id"] and isolate:
                     c2["filter"] = 1
                     scn["rejects"].append([j, c2["id"]])
                 elif c2["filter"] and rng.chance(20):
                     scn["rejects"].append([j, c2["id"]])
-            if rng.chance(20):
-                st = rng.choice([s for s in ("filter", "dynFormat", "formatMap") if stage_valid(s, c)])
-                scn["faults"].append([j, c["id"], st, rng.choice(ERR_NAMES)])
+                elif rng.chance(15):
+                    st = rng.choice([s for s in ("filter", "dynFormat", "formatMap", "write", "flush", "coroBody")
+                                     if stage_valid(s, c2)])
+                    if not (c2["kind"] == "file" and st == "write" and
+                            any(f[1] == c2["id"] and f[2] == "stop" for f in scn["faults"])):
+                        scn["faults"].append([j, c2["id"], st, rng.choice(ERR_NAMES)])
     # removal
     if rng.chance(35):
         at = rng.range(0, len(groups))
@@ -899,6 +911,13 @@ CORPUS = [
     {"handlers": [base_handler(0, filter=1), base_handler(1, catch=0, kind="standard"), base_handler(2, filter=1)],
      "faults": [], "rejects": [[100, 0], [100, 2]], "reenter": [[0, 1, 100]], "exc": [], "strfails": [],
      "levels": {}, "noloop": 0, "stderr": "ok", "groups": [[["l", 0], ["c"]], [["l", 1], ["c"]]]},
+    # a sink calling the logger: the other handlers receive the inner messages (before / after the busy one),
+    # one of them (catch=False) fails on an inner message, which escapes through the sink
+    {"handlers": [base_handler(0, enqueue=1), base_handler(1, kind="standard"),
+                  base_handler(2, catch=0, kind="streamFlush"), base_handler(3, kind="coroutine")],
+     "faults": [[200, 2, "write", "KeyError"]], "rejects": [],
+     "reenter": [[0, 1, 100], [1, 1, 200], [1, 1, 201], [100, 2, 300]], "exc": [], "strfails": [], "levels": {},
+     "noloop": 0, "stderr": "ok", "groups": [[["l", 0], ["c"]], [["l", 1], ["c"]], [["l", 2], ["c"]]]},
     # a sink that logs to its own handler twice in one write (the first detection must not disarm the second)
     {"handlers": [base_handler(0, kind="streamFlush")], "faults": [], "rejects": [],
      "reenter": [[0, 0, 100], [0, 0, 200], [1, 0, 101]], "exc": [], "strfails": [], "levels": {},
@@ -1010,6 +1029,11 @@ def run(ctx):
     for (origin, scn), mo in zip(scns, model):
         if mo == "bad-op":
             raise RuntimeError("driver rejected scenario line: " + line_of(scn))
+        if mo is not None and mo.startswith("LAYER-MISMATCH"):
+            # the handler-level model (Emit/Model.lean) and the registry-level one (Emit/Nested.lean) must agree
+            # whenever no sink calls the logger
+            ctx.broke("model layers disagree (stepW vs stepWN)", mo[:2000])
+            mo = mo.split(" /// ")[1]
         model_obs = mo.split("|") if mo is not None else None
         if scn["stderr"] not in ("ok", "absent", "OSError") and (mo is None or "BLOCKED" in mo):
             continue
